@@ -122,6 +122,27 @@ impl<L: SimLang> Analysis<L> for SimAn {
             let (a, b, d) = c.get();
             c.set((a, b, d + 1))
         });
+        if eg.analysis.modify && L::NAME == "LS" {
+            // `g(s, x) = x` as a modify hook: the class of every inserted g-node is united with its child
+            // from inside the rebuild of the `add` that created it (the new class usually dies at once,
+            // with or without its parameters). The crate calls `modify` for new classes and for classes
+            // whose datum changed only, so the hook must not depend on anything that can become true
+            // later without a datum change; a g-node enters a class only by being inserted.
+            let id = eg.find_applied_id(&eg.mk_identity_applied_id(id)).id;
+            let mut todo: Vec<AppliedId> = Vec::new();
+            for n in eg.enodes(id) {
+                let (name, _, _, _) = n.unmk();
+                let kids = n.applied_id_occurrences();
+                if name == "g" && kids.len() == 1 {
+                    todo.push(kids[0].clone());
+                }
+            }
+            for x in todo {
+                let this = eg.mk_identity_applied_id(eg.find_applied_id(&eg.mk_identity_applied_id(id)).id);
+                eg.union(&this, &x);
+            }
+            return;
+        }
         if !eg.analysis.modify || L::NAME != "LA" {
             return;
         }
